@@ -112,6 +112,17 @@ CLAIMED['C04'] = dict(
     note='Trusted: M2S, z3, State::local_item / Item::kind / alias_export / expr as arbitrary results, IndexMap association-list model. Documents in the battery are examples, not the claim.',
     design='DESIGN.md section 3 / C04')
 
+CLAIMED['C10'] = dict(
+    technique='symbolic execution of rustc MIR (M2S) of plug::plug with the graph API replaced by its contract (assume-guarantee on C06/C07/C15); z3 decides agreement with the documented matching; models realised as components and replayed through wac_graph::plug',
+    text='Bounded: for sockets with <= 2 imports / <= 1 export (thorough: 3 / 2) and 1..2 plugs (thorough: 3) with <= 2 exports each, over abstract names carrying a semver '
+         'track and abstract types with an uninterpreted `<:`: on every path of the real plug() MIR, Ok is returned exactly when something is offered, no socket import is '
+         'offered twice and no graph call fails; then every offered socket import (exact name, else first semver-compatible import, filtered by `<:`) is supplied by an alias of '
+         'exactly the offering export of an instance of exactly that plug, nothing else is supplied, a plug is instantiated once iff it offers something, every socket export is '
+         're-exported under its own name from the socket instance; NoPlugHappened iff nothing is offered; two offers for one import give an error. '
+         'Validity of the encoded result is observed on the replayed witnesses only.',
+    note='Trusted: contracts of instantiate / alias_instance_export / set_instantiation_argument / export (C06 effect postconditions), `<:` uninterpreted (C07), are_semver_compatible = track relation (C15), M2S, z3. 4 plugs and larger sockets are outside the bound.',
+    design='DESIGN.md section 3 / C10')
+
 NOT_APPLICABLE = {
  'C01': 'validity is defined by an external 60 kLoC validator over whole-pipeline output; neither it nor the encoder can be executed symbolically here (DESIGN.md section 4)',
  'C05': 'needs wit-component as reference encoder and the validator subtype relation as comparison; out of reach of symbolic execution (DESIGN.md section 4)',
